@@ -7,7 +7,47 @@ import (
 	"vrt/rt"
 )
 
-type Pool = sync.Pool
+// Pool is a deterministic sync.Pool: last in, first out, empty at the start of every execution (a package-level
+// pool must not carry objects from one explored execution into the next, and the real pool's per-P caches and
+// its clearing by the garbage collector would make replays diverge). Get and Put are recorded as accesses to the
+// pool for the happens-before hashes, so two executions that differ in the order of a Put and a Get are kept apart.
+type Pool struct {
+	o     rt.Obj
+	New   func() interface{}
+	items []interface{}
+}
+
+func (p *Pool) touch(kind string) {
+	if p.o.Touch() {
+		p.items = nil
+	}
+	if r := rt.Cur(); r != nil {
+		r.TouchHBOnly(kind, &p.o)
+	}
+}
+
+func (p *Pool) Get() interface{} {
+	p.touch("pool.get")
+	if n := len(p.items); n > 0 {
+		x := p.items[n-1]
+		p.items[n-1] = nil
+		p.items = p.items[:n-1]
+		return x
+	}
+	if p.New != nil {
+		return p.New()
+	}
+	return nil
+}
+
+func (p *Pool) Put(x interface{}) {
+	if x == nil {
+		return
+	}
+	p.touch("pool.put")
+	p.items = append(p.items, x)
+}
+
 type Locker = sync.Locker
 type Map = sync.Map
 
